@@ -1,4 +1,4 @@
-// backgroundload_in_progress used with condition variable
+// background_load_in_progress used with condition variable
 #![allow(clippy::mutex_atomic)]
 
 use std::collections::VecDeque;
@@ -23,7 +23,7 @@ pub struct DiskReadScheduler {
     load_scheduled: RwLock<HashMap<(String, PartitionID), AtomicBool>>,
 
     background_load_wait_queue: Condvar,
-    backgroundload_in_progress: Mutex<bool>,
+    background_load_in_progress: Mutex<bool>,
 }
 
 /// Clears the `load_scheduled` flag of a partition when the load ends, however it ends. If the flag
@@ -66,7 +66,7 @@ impl DiskReadScheduler {
             lru,
             lz4_decode,
             background_load_wait_queue: Condvar::default(),
-            backgroundload_in_progress: Mutex::default(),
+            background_load_in_progress: Mutex::default(),
             load_scheduled: RwLock::default(),
         }
     }
@@ -116,15 +116,15 @@ impl DiskReadScheduler {
             // Load for column is already scheduled, wait for it to complete.
             // TODO: this doesn't do anything currently, was only used by sequential disk reads. should check whether relevant subpartition is currently being loaded.
             } else if self.is_load_scheduled(&partition_handle) {
-                let mut isload_in_progress = self.backgroundload_in_progress.lock().unwrap();
-                while *isload_in_progress
+                let mut is_load_in_progress = self.background_load_in_progress.lock().unwrap();
+                while *is_load_in_progress
                     && !handle.is_resident()
                     && self.is_load_scheduled(&partition_handle)
                 {
                     debug!("Queuing for {}.{}", handle.name(), handle.id());
-                    isload_in_progress = self
+                    is_load_in_progress = self
                         .background_load_wait_queue
-                        .wait(isload_in_progress)
+                        .wait(is_load_in_progress)
                         .unwrap();
                 }
             // Load for column is not scheduled, load all columns in the same subpartition..
@@ -215,7 +215,7 @@ impl DiskReadScheduler {
 
     pub fn service_reads(&self, ldb: &InnerLocustDB) {
         debug!("Waiting to service reads...");
-        *self.backgroundload_in_progress.lock().unwrap() = true;
+        *self.background_load_in_progress.lock().unwrap() = true;
         debug!("Started servicing reads...");
         loop {
             let next_read = {
@@ -224,7 +224,7 @@ impl DiskReadScheduler {
                     Some(read) => read,
                     None => {
                         debug!("Stopped servicing reads...");
-                        *self.backgroundload_in_progress.lock().unwrap() = false;
+                        *self.background_load_in_progress.lock().unwrap() = false;
                         return;
                     }
                 }
